@@ -24,13 +24,15 @@ struct Parked {
 };
 inline Parked parked(int *counter) { for (;;) { (*counter)++; co_await std::suspend_always{}; } }
 
+struct Big { long w[8]; };       // a value type that does not allocate, larger than any small-object buffer
 struct Op { uint8_t code, a, b; };
 struct Prog { std::vector<Op> ops; };
-inline Prog decode(hz::Reader &r) { Prog p; unsigned n = 0; while (r.more() && n < 40) { Op o; o.code = (uint8_t)r.mod(12); o.a = r.u8(); o.b = r.u8(); p.ops.push_back(o); n++; } return p; }
+inline Prog decode(hz::Reader &r) { Prog p; unsigned n = 0; while (r.more() && n < 40) { Op o; o.code = (uint8_t)r.mod(13); o.a = r.u8(); o.b = r.u8(); p.ops.push_back(o); n++; } return p; }
 static const char *opn[] = {"new future/promise pair", "coroutine waiter", "callback awaiter", "resolve(value)", "resolve(exception|drop)", "destroy pair", "mutex episode (contend + hand over)",
                             "suspend point episode (<=3 handles: merge, move, pop, clear)", "step synchronous generator", "blocking wait (ready future | waiter thread)",
                             "coroutine blocks in force_wait() while another coroutine is queued on its thread; a second thread resolves",
-                            "callback_await_alloc (helper frame in the arena) with a small or a 100-byte callback"};
+                            "callback_await_alloc (helper frame in the arena) with a small or a 100-byte callback",
+                            "future of a 64-byte value resolved through promise::bind() (or directly), read, destroyed"};
 inline std::string describe(const Prog &p) {
     hz::Desc d; d << (unsigned)p.ops.size() << " ops (program executed twice inside the measured region):";
     for (auto &o : p.ops) { d << " " << opn[o.code]; if (o.code == 6) d << "[" << (unsigned)(2 + o.a % 3) << " lockers]"; }
@@ -56,7 +58,7 @@ struct World {
     long gen_sum = 0; int gen_steps = 0;
     unsigned stats_waiters = 0, stats_handover = 0; int thread_waiters = 0;
     int forcers = 0, forcers_done = 0, bystanders = 0;
-    int cba_registered = 0, cba_fired = 0;
+    int cba_registered = 0, cba_fired = 0; int big_episodes = 0;
 };
 
 inline cocls::with_allocator<Arena, cocls::async<void>> co_waiter(Arena &, World *w, cocls::future<int> *f) {
@@ -116,6 +118,16 @@ inline void exec(World &w, const Prog &prog, std::vector<Parked> &parks, cocls::
                 c.clear();
             } break;
             case 8: { bool more = (bool)gen.next(); if (more) { w.gen_sum += gen.value(); w.gen_steps++; } } break;
+            case 12: {
+                cocls::future<Big> f; cocls::promise<Big> pr = f.get_promise();
+                Big v; for (int i = 0; i < 8; i++) v.w[i] = o.a + i;
+                if (o.b & 1) { auto fn = pr.bind(v); fn(); }                   // resolution prepared in advance, performed by calling the bound object
+                else if (o.b & 2) { auto fn = pr.bind(v); (void)fn; }          // (bound object dropped uncalled: the promise inside is destroyed, no value)
+                else pr(v);
+                bool hv = f.has_value();
+                if (hv && f.value().w[7] != o.a + 7) hz::fail("a 64-byte value arrived damaged");
+                w.big_episodes++;
+            } break;
             case 11: if (p.f && w.cba_registered < 16 && (p.resolved || p.co_waiting < 3)) {       // (the helper is a coroutine waiter: same bound of three per future)
                 if (!p.resolved) p.co_waiting++;
                 // awaiting through the callback helper: its coroutine frame goes to the storage the caller supplies,
@@ -186,7 +198,7 @@ namespace hz {
 static const Info I = {
     "C20", 1, 121, 100000, true, true,
     "stateful byte-decoded programs (rapidcheck), up to 40 ops over {create future/promise pair, add coroutine waiter (frame in a pre-allocated arena via with_allocator), add callback awaiter, resolve with value / exception / drop, destroy pair, "
-    "mutex episode (owner + 2..4 contending lockers handed over one by one), suspend point episode with <=3 handles (construct, <<, move, merge, pop, clear), step a synchronous generator, blocking wait on a ready future or by a waiter thread, a coroutine blocking in force_wait() with another coroutine queued behind it while a second thread resolves, callback_await_alloc with its helper frame in the arena and a small or 100-byte callback}; "
+    "mutex episode (owner + 2..4 contending lockers handed over one by one), suspend point episode with <=3 handles (construct, <<, move, merge, pop, clear), step a synchronous generator, blocking wait on a ready future or by a waiter thread, a coroutine blocking in force_wait() with another coroutine queued behind it while a second thread resolves, callback_await_alloc with its helper frame in the arena and a small or 100-byte callback, a future of a 64-byte value resolved through promise::bind()}; "
     "the whole program runs inside a measured region of the counting global operator new (thread creation and the node storage of each thread's ready queue - the first deque of handles a thread constructs - are exempt by construction; any other container is counted) and is then executed a second time (metamorphic doubling). "
     "Oracle: operator new count inside the region == 0 after the first and after the second execution; all waiters finished, all lock requests granted. Non-trivial = >=1 waiter and >=1 contended mutex hand-over; distinct = hash(decoded program, executed switch trace).",
     c20::class_names, 4, c20::counter_names, 2};
